@@ -414,6 +414,9 @@ def rules(ctx):
         ctx.violation("C11.R12", fn, node, desc + ": the model is not the same after the call, so the identical seeded call repeated gives another result")
     for fn, names in holders:
         ctx.ok("C11.R12", fn, fn.node, f"locals aliasing model values {names}: never written in place", construct=f"def {fn.name}")
+    # "the same seeded call repeated": an algorithm object run twice builds its samplers anew (same rule as C07.R13)
+    from .c07 import r13_fresh_samplers_every_run
+    r13_fresh_samplers_every_run(ctx, rid="C11.R15", why="the same seeded run repeated on the same algorithm object starts from the proposal scales adapted by the first run and gives another result")
     st = cg.stats()
     ctx.extra["call_sites"] = st
     ctx.trust("effect tables for torch / numpy / random / scipy.stats draws (sa/effects.py); joblib / matplotlib do not draw from the seeded generators")
